@@ -892,6 +892,8 @@ SEQUENCE_encode_xer(const asn_TYPE_descriptor_t *td, const void *sptr,
                 assert(tmp_def_val == 0);
                 if(elm->default_value_set) {
                     if(elm->default_value_set(&tmp_def_val)) {
+                        /* The setter may have allocated a part of it. */
+                        ASN_STRUCT_FREE(*elm->type, tmp_def_val);
                         ASN__ENCODE_FAILED;
                     } else {
                         memb_ptr = tmp_def_val;
